@@ -402,7 +402,7 @@ def judge_own(fmt, cs, info, res, docs_out=None):
          "what": f"{name} writer output detected as {det_name(det)}"
                  + (f", {R.__name__}.read raised {impl.ERR_NAMES.get(rd.code, rd.code)}" if isinstance(rd, Err) else ""),
          "input": gens.describe_capset(cs) if info["ncaps"] <= 8 else "(%d captions)" % info["ncaps"],
-         "document": doc if len(doc) < 4000 else doc[:4000], "replay": "own", "stream": "D"}
+         "document": doc, "replay": "own", "stream": "D"}
     if info["literal_other"] and shape == "other":
         # outside the LITERAL reading of the domain (text carries a later / positional format's marker): counted
         bump(dist, "info_own_output_failure_outside_literal_domain")
@@ -634,15 +634,15 @@ def run(ctx):
                     "detected as its own format (C20_own_nodes_srt / _mdvd / _vtt)",
                     "SCC from the text nodes: every document the SCC writer model returns is detected as SCC (body characters "
                     "proved over the complete generated tables)",
-                    "MicroDVD read-back: on the domain excluding the two recorded MicroDVD findings the reader model returns one "
-                    "caption per written cue with the written frames' instants (C20_own_read_mdvd)",
+                    "MicroDVD / SRT read-back: on the domains excluding the recorded findings the reader model returns one "
+                    "caption per written cue with the written instants and text pieces (C20_own_read_mdvd, C20_own_read_srt)",
                     "DFXP / SAMI skeletons: a document containing </tt> is DFXP; a document opening with <sami and "
                     "carrying neither </tt> nor WEBVTT is SAMI"],
         "correspondence_only": ["detect_format iterates SUPPORTED_READERS and calls reader().detect (streams A-C via the oracle)",
                                 "own output is read back by its reader (stream D); DFXP / SAMI documents (bs4) are instances of the "
                                 "skeleton shapes (stream F)",
                                 "the SRT / MicroDVD / WebVTT writer models equal the real writers (stream G, request 2003); "
-                                "WebVTT with layout / Caption.style / style classes, float times and the SCC writer are outside "
+                                "WebVTT with layout / Caption.style / style classes, float times, SCC texts with a TAB are outside "
                                 "the node-level models",
                                 "real writer outputs have the document shapes of the own-output theorems",
                                 "the hand-written sniffer bodies (markers generated, boundary cases stream E)",
@@ -668,7 +668,7 @@ def replay(ctx, rec):
         return (not good), repr(det)
     if rec.get("replay") == "own-read":
         rd = c20_nodes.real_read(rec["fmt"], rec["document"])
-        want = [tuple(e) for e in rec["expected"]]
+        want = [(e[0], e[1], list(e[2])) for e in rec["expected"]]
         return (not (isinstance(rd, Ok) and rd.v == want)), repr(rd)
     if rec.get("replay") == "own-detect":
         doc = rec["document"]
